@@ -162,13 +162,15 @@ func (mw *msgWriter) writeMsg(msg *Msg) {
 		}
 	}
 	if msg.hasPGPType() {
+		// like for the other multipart types the boundary of the first render is kept, so that
+		// every render of the message produces the same bytes
 		switch msg.pgptype {
 		case PGPEncrypt:
-			mw.startMP(`encrypted; protocol="application/pgp-encrypted"`,
-				msg.boundary)
+			mimeType := MIMEType(`encrypted; protocol="application/pgp-encrypted"`)
+			msg.multiPartBoundary[mimeType] = mw.startMP(mimeType, mw.getMultipartBoundary(msg, mimeType))
 		case PGPSignature:
-			mw.startMP(`signed; protocol="application/pgp-signature";`,
-				msg.boundary)
+			mimeType := MIMEType(`signed; protocol="application/pgp-signature";`)
+			msg.multiPartBoundary[mimeType] = mw.startMP(mimeType, mw.getMultipartBoundary(msg, mimeType))
 		default:
 		}
 		mw.writeString(DoubleNewLine)
